@@ -70,7 +70,9 @@ def main():
                 if kind == 'mutant':
                     t = sh(f'cd {wt} && CARGO_NET_OFFLINE=true CARGO_TARGET_DIR={out}/repotarget cargo test --offline 2>&1 | grep "test result" | head -1')
                     tests = 'pass' if re.search(r'ok\. 102 passed; 0 failed', t.stdout) else ('FAIL ' + t.stdout.strip()[:80])
-                if props_arg == 'all' or (props_arg is None and kind == 'seed'):
+                if props_arg == 'target' and kind == 'seed':
+                    props = [json.load(open(f'/verif/seeded/{name}/meta.json'))['breaks_property']]
+                elif props_arg == 'all' or (props_arg is None and kind == 'seed'):
                     props = ALL
                 elif props_arg:
                     props = props_arg.split(',')
@@ -89,9 +91,11 @@ def main():
                 if kind == 'seed':
                     mp = f'/verif/seeded/{name}/meta.json'
                     meta = json.load(open(mp))
-                    meta['checks'] = {p: {'exit': v[0], 'signatures': v[1], 'wall_s': v[2]} for p, v in res.items()}
-                    meta['caught_by'] = caught
-                    meta['inconclusive_in'] = sorted(p for p, v in res.items() if v[0] == 2)
+                    ch = meta.get('checks', {}) if props_arg == 'target' else {}
+                    ch.update({p: {'exit': v[0], 'signatures': v[1], 'wall_s': v[2]} for p, v in res.items()})
+                    meta['checks'] = ch
+                    meta['caught_by'] = sorted(p for p, v in ch.items() if v['exit'] == 1)
+                    meta['inconclusive_in'] = sorted(p for p, v in ch.items() if v['exit'] == 2)
                     meta['matrix_run'] = 'all 16 quick checks through tools/altcheck.sh on a scratch worktree with the patch applied'
                     json.dump(meta, open(mp, 'w'), indent=1)
             finally:
